@@ -11,6 +11,10 @@ CLAIMED = {
    note="Trusts the stub seams (SimDriver, SimRevs) to model a non-transactional database and an all-or-nothing revision write; real code: Executor, MemDir, hashing, scanner.",
    technique="deterministic simulation: seeded fault-sequence search over the Driver/RevisionReadWriter seams, invariants per call, tape shrinking + exact replay"),
 }
+CLAIMED["C10"] = dict(engine="clisim", design="DESIGN.md §5 C10, §4 E-B, Appendix C",
+   text="Seeded search over (crash point x occurrence x tx-mode x directory shape x restart-before/after-lease-expiry x second crash) against the real CLI binary and a real SQLite file; SIGKILL at build-tagged points; oracle = never-ahead, per-mode atomicity, at-most-one-in-flight, multiplicity and bounded liveness checked by an independent SQLite observer after every crash and at completion. Sampling, not enumeration.",
+   note="Crash = SIGKILL (no power-loss model); SQLite's journal recovery is trusted; lease time is simulated by rewriting the lease file.",
+   technique="deterministic simulation: crash injection at hook points in the real CLI process, seeded crash/restart schedules, state invariants by independent observer, tape shrinking + exact replay")
 
 NOT_BUILT = {
  "C01": "not built yet in this tree (planned claim, DESIGN \u00a75); listed here so that every unclaimed property has an entry",
@@ -80,7 +84,7 @@ def main():
 
 ENGINES = [
  {"name": "execsim", "path": "sim/execsim", "serves_properties": ["C09", "C11", "C12", "C06"], "kind_free_text": "in-process: real migrate.Executor/dir/scanner/hash against stub database + stub revision store + faulty Dir; faults enter through the stubs"},
- {"name": "clisim", "path": "sim/clisim", "serves_properties": ["C10", "C13", "C14", "C18", "C06", "C11", "C12"], "kind_free_text": "process level: the real CLI built with -tags verif on a real SQLite file, crash (SIGKILL at hook points) and lease adversary, independent SQLite observer"},
+ {"name": "clisim", "path": "sim/clisim", "serves_properties": [ "C13", "C14", "C18", "C06", "C11", "C12"], "kind_free_text": "process level: the real CLI built with -tags verif on a real SQLite file, crash (SIGKILL at hook points) and lease adversary, independent SQLite observer"},
  {"name": "schemasim", "path": "sim/schemasim", "serves_properties": ["C01", "C03", "C05", "C17"], "kind_free_text": "in-process: random walk of desired schemas on a real SQLite engine with failing/abandoned plans; reference database + row model"},
  {"name": "detsim", "path": "sim/detsim", "serves_properties": ["C20"], "kind_free_text": "map-iteration-order seam (go/ast rewrite of a scratch copy), declaration-order permutation, interleaving of independent operations, fresh processes"},
 ]
